@@ -460,6 +460,102 @@ func c16(run *ev.Run, tier string) {
 		}
 	}
 
+	// ---------------- part 3b (exhaustive over string leaves): whatever field is
+	// expanded at all must be expanded with the caller-supplied mapping. Every
+	// string leaf of the full document gets the value "$VERIF_LEAF"; the process
+	// environment and the mapping disagree about that variable. Afterwards each
+	// leaf is either untouched or holds the mapping's value - never anything else.
+	{
+		os.Setenv("VERIF_LEAF", "from-the-process-environment")
+		c := fullConfig()
+		var setAll func(v reflect.Value)
+		nleaves := 0
+		setAll = func(v reflect.Value) {
+			switch v.Kind() {
+			case reflect.Ptr:
+				if !v.IsNil() {
+					setAll(v.Elem())
+				}
+			case reflect.Struct:
+				if v.Type().String() == "time.Time" {
+					return
+				}
+				for i := 0; i < v.NumField(); i++ {
+					f := v.Type().Field(i)
+					if f.PkgPath != "" || f.Tag.Get("yaml") == "-" {
+						continue
+					}
+					switch f.Name {
+					case "Type", "Packager", "VersionSchema", "Compression", "Method", "Platform", "Arch":
+						continue // enumerated / format-selecting values stay valid
+					}
+					setAll(v.Field(i))
+				}
+			case reflect.String:
+				if v.CanSet() {
+					v.SetString("$VERIF_LEAF")
+					nleaves++
+				}
+			case reflect.Slice:
+				for i := 0; i < v.Len(); i++ {
+					setAll(v.Index(i))
+				}
+			case reflect.Map:
+				for _, k := range v.MapKeys() {
+					if v.Type().Elem().Kind() == reflect.String {
+						v.SetMapIndex(k, reflect.ValueOf("$VERIF_LEAF"))
+						nleaves++
+					} else {
+						setAll(v.MapIndex(k))
+					}
+				}
+			}
+		}
+		setAll(reflect.ValueOf(c))
+		c.Version = "1.0.0"
+		yb, _ := yaml.Marshal(c)
+		rec := newRecorder(map[string]string{"VERIF_LEAF": "from-the-mapping"}, "")
+		cfg, perr := nfpm.ParseWithEnvMapping(strings.NewReader(string(yb)), rec.get)
+		parses++
+		run.Case(fmt.Sprintf("mapping-only|%d string leaves", nleaves), true)
+		if perr != nil {
+			run.Violate("C16/valid-document-rejected", map[string]any{"error": perr.Error(), "doc": "every string leaf = $VERIF_LEAF"})
+		} else {
+			var walk func(v reflect.Value, path string)
+			walk = func(v reflect.Value, path string) {
+				switch v.Kind() {
+				case reflect.Ptr, reflect.Interface:
+					if !v.IsNil() {
+						walk(v.Elem(), path)
+					}
+				case reflect.Struct:
+					if v.Type().String() == "time.Time" {
+						return
+					}
+					for i := 0; i < v.NumField(); i++ {
+						if v.Type().Field(i).PkgPath == "" {
+							walk(v.Field(i), path+"."+v.Type().Field(i).Name)
+						}
+					}
+				case reflect.String:
+					if s := v.String(); strings.Contains(s, "process-environment") {
+						run.Violate("C16/expanded-from-process-environment-instead-of-mapping", map[string]any{"field": path, "value": s})
+					}
+				case reflect.Slice:
+					for i := 0; i < v.Len(); i++ {
+						walk(v.Index(i), fmt.Sprintf("%s[%d]", path, i))
+					}
+				case reflect.Map:
+					for _, k := range v.MapKeys() {
+						walk(v.MapIndex(k), fmt.Sprintf("%s[%v]", path, k))
+					}
+				}
+			}
+			walk(reflect.ValueOf(&cfg), "Config")
+		}
+		os.Unsetenv("VERIF_LEAF")
+	}
+
 	// ---------------- part 4: passphrase precedence, all 16 combinations. The
 	// process environment says something else all along: only the
 	// caller-supplied mapping may be consulted.
@@ -500,6 +596,31 @@ func c16(run *ev.Run, tier string) {
 		} {
 			if x.got != want(x.specific) {
 				run.Violate("C16/passphrase-precedence/"+x.f, map[string]any{"set_variables": env, "got": x.got, "want": want(x.specific)})
+			}
+		}
+		// the same holds for the effective settings of a format whose override
+		// block configures (part of) the signature
+		c2 := base()
+		c2.Overrides = map[string]*nfpm.Overridables{}
+		for _, f := range []string{"deb", "rpm", "apk"} {
+			o := &nfpm.Overridables{}
+			o.Deb.Signature.KeyFile, o.RPM.Signature.KeyFile, o.APK.Signature.KeyFile = "override-key-"+f, "override-key-"+f, "override-key-"+f
+			c2.Overrides[f] = o
+		}
+		yb2, _ := yaml.Marshal(c2)
+		if cfg2, err := nfpm.ParseWithEnvMapping(strings.NewReader(string(yb2)), newRecorder(env, "").get); err == nil {
+			parses++
+			for _, f := range []string{"deb", "rpm", "apk"} {
+				info, gerr := cfg2.Get(f)
+				if gerr != nil {
+					continue
+				}
+				got := map[string]string{"deb": info.Deb.Signature.KeyPassphrase, "rpm": info.RPM.Signature.KeyPassphrase, "apk": info.APK.Signature.KeyPassphrase}[f]
+				kf := map[string]string{"deb": info.Deb.Signature.KeyFile, "rpm": info.RPM.Signature.KeyFile, "apk": info.APK.Signature.KeyFile}[f]
+				spec := "NFPM_" + strings.ToUpper(f) + "_PASSPHRASE"
+				if got != want(spec) || kf != "override-key-"+f {
+					run.Violate("C16/passphrase-precedence/"+f+"/with-signature-override", map[string]any{"set_variables": env, "got": got, "want": want(spec), "key_file": kf})
+				}
 			}
 		}
 	}
